@@ -7,6 +7,8 @@ from checks import query_common as Q
 
 
 def run(prop, tier, replay):
+    if replay:
+        return Q.replay(prop, replay, {"DmlMatchesSqlModel"}, trace_module="Trace_LanceTable")
     t0 = time.time()
     out = vlib.Outcome(prop)
     mc, stmts = Q.model_and_statements(prop, steps=1)
